@@ -46,8 +46,13 @@ package cmd
 //@   pure
 //@   requires client != nil
 
+// what init() loaded and what is on disk agree (see headFileSync): the identity was read line by line from the config
+// files (store.NewConfig#post[result]) and the current branch's file, when there is one, held a commit id when HEAD was
+// loaded (store.NewHead#post[tip-text])
 //@ func commitCmd.RunE
 //@   requires clientWF() && cmd != nil
+//@   requires [identity-loaded] store.oneLineConfig(client.Conf)
+//@   requires [branch-loaded] isFile(fs, store.refPath(client.RootGoitPath, client.Head.Reference)) ==> !contains(content(fs, store.refPath(client.RootGoitPath, client.Head.Reference)), "\n")
 
 //@ func configCmd.PreRunE
 //@   returns err
@@ -300,12 +305,18 @@ package cmd
 //@   ensures [result] err == nil ==> o != nil && len(o.Hash) == 20
 //@   ensures [nil] err != nil ==> o == nil
 //@   ensures [tree-stored] {C02,C03} err == nil ==> isFile(fs, object.objPath(rootGoitPath, o.Hash)) && object.storedKind(fs, rootGoitPath, o.Hash) == object.TreeObject
-//@   ensures [objects-only] {C02,C03} forall q string :: (forall h string :: q != object.objPath(rootGoitPath, h) && q != object.objDir(rootGoitPath, h)) ==> fs[q] == old(fs)[q]
+//@   ensures [tree-id] {C02,C03} err == nil ==> exists d string :: string(o.Hash) == object.objId(object.TreeObject, d)
+//@   ensures [objects-only] {C02,C03} forall q string :: (forall h string :: len(h) == 20 ==> q != object.objPath(rootGoitPath, h) && q != object.objDir(rootGoitPath, h)) ==> fs[q] == old(fs)[q]
 //@   loop 0:
-//@     invariant [objects-only] {C02,C03} forall q string :: (forall h string :: q != object.objPath(rootGoitPath, h) && q != object.objDir(rootGoitPath, h)) ==> fs[q] == old(fs)[q]
+//@     invariant [objects-only] {C02,C03} forall q string :: (forall h string :: len(h) == 20 ==> q != object.objPath(rootGoitPath, h) && q != object.objDir(rootGoitPath, h)) ==> fs[q] == old(fs)[q]
 //@     invariant forall k int :: 0 <= k && k < len(entryBuf) ==> entryBuf[k] != nil && len(entryBuf[k].Path) <= 65535
 //@     invariant 0 <= i
 
+// proof steps of commit(): what is on disk once the commit object is written, and once the branch names it; each later
+// write (branch file, the two logs, HEAD) touches none of these files
+//@ pred objectsWritten(f, root, tree, ch) := object.treeStored(f, root, tree) && object.commitTreeOf(f, root, ch) == string(tree)
+//@ pred parentsAre(f, root, ch, f0, ref) := object.commitParentsOf(f, root, ch) == ite(isFile(f0, store.refPath(root, ref)), seqAppend(emptyStrings(), unhex(content(f0, store.refPath(root, ref)))), emptyStrings())
+//@ pred branchWritten(f, root, ref, tree, ch) := objectsWritten(f, root, tree, ch) && content(f, store.refPath(root, ref)) == hex(ch)
 //@ func commit
 //@   returns err
 //@   modifies store.Refs.Heads, store.branch.hash, store.Head.Reference, store.Head.Commit, fs, $rdpos, $hashdata, $screst, $sctok
@@ -313,7 +324,28 @@ package cmd
 //@   requires (head.Commit != nil ==> head.Commit.Object != nil)
 //@   requires (head.Commit == nil ==> forall i int :: 0 <= i && i < len(refs.Heads) ==> refs.Heads[i].Name != head.Reference)
 //@   requires [log-root] gLogger.rootGoitPath == rootGoitPath
+//@   requires [identity-one-line] store.oneLineConfig(conf)
+//@   requires [branch-text] isFile(fs, store.refPath(rootGoitPath, head.Reference)) ==> !contains(content(fs, store.refPath(rootGoitPath, head.Reference)), "\n")
 //@   ensures [same-branch] {C02} err == nil ==> head.Reference == old(head.Reference)
+//@   ensures [tip-tree-stored] {C02,C03} err == nil && validName(old(head.Reference)) ==> object.treeStored(fs, rootGoitPath, head.Commit.Tree)
+//@   ensures [parent-is-old-tip] {C02} err == nil && validName(old(head.Reference)) ==> parentsAre(fs, rootGoitPath, head.Commit.Hash, old(fs), old(head.Reference)) && head.Commit.Parents == object.commitParentsOf(fs, rootGoitPath, head.Commit.Hash)
+//@   after ReadFile: assert [parent-one-line] {C02} err == nil && validName(head.Reference) ==> !contains(string(branchBytes), "\n")
+//@   after NewSign: assert [identity-one-line] {C02} !contains(author.Name, "\n") && !contains(author.Email, "\n")
+//@   after Write: assert [tree-kept] {C02,C03} err == nil ==> object.treeStored(fs, rootGoitPath, treeObject.Hash)
+//@   after Write: assert [commit-names-tree] {C02,C03} err == nil && validName(head.Reference) ==> object.commitTreeOf(fs, rootGoitPath, commit.Hash) == string(treeObject.Hash)
+//@   after UpdateBranchHash: assert [branch-written] {C02,C03} err == nil && validName(head.Reference) ==> branchWritten(fs, rootGoitPath, head.Reference, treeObject.Hash, commit.Hash)
+//@   after AddBranch: assert [branch-created] {C02,C03} err == nil && validName(head.Reference) ==> branchWritten(fs, rootGoitPath, head.Reference, treeObject.Hash, commit.Hash)
+//@   after WriteHEAD: assert [head-logged] {C02,C03} err == nil && validName(head.Reference) ==> branchWritten(fs, rootGoitPath, head.Reference, treeObject.Hash, commit.Hash)
+//@   after WriteBranch: assert [branch-logged] {C02,C03} err == nil && validName(head.Reference) ==> branchWritten(fs, rootGoitPath, head.Reference, treeObject.Hash, commit.Hash)
+//@   after Update: assert [head-updated] {C02,C03} err == nil && validName(head.Reference) ==> branchWritten(fs, rootGoitPath, head.Reference, treeObject.Hash, commit.Hash)
+//@   after NewCommit: assert [parents-read-back] {C02} err == nil && validName(head.Reference) ==> commit.Parents == ite(isFile(old(fs), store.refPath(rootGoitPath, head.Reference)), seqAppend(emptyStrings(), unhex(content(old(fs), store.refPath(rootGoitPath, head.Reference)))), emptyStrings())
+//@   after Write: assert [commit-names-parent] {C02} err == nil && validName(head.Reference) ==> parentsAre(fs, rootGoitPath, commit.Hash, old(fs), head.Reference)
+//@   after UpdateBranchHash: assert [branch-written-p] {C02} err == nil && validName(head.Reference) ==> parentsAre(fs, rootGoitPath, commit.Hash, old(fs), head.Reference)
+//@   after AddBranch: assert [branch-created-p] {C02} err == nil && validName(head.Reference) ==> parentsAre(fs, rootGoitPath, commit.Hash, old(fs), head.Reference)
+//@   after WriteHEAD: assert [head-logged-p] {C02} err == nil && validName(head.Reference) ==> parentsAre(fs, rootGoitPath, commit.Hash, old(fs), head.Reference)
+//@   after WriteBranch: assert [branch-logged-p] {C02} err == nil && validName(head.Reference) ==> parentsAre(fs, rootGoitPath, commit.Hash, old(fs), head.Reference)
+//@   after Update: assert [head-updated-p] {C02} err == nil && validName(head.Reference) ==> parentsAre(fs, rootGoitPath, commit.Hash, old(fs), head.Reference)
+//@   after NewCommit: assert [tree-read-back] {C02,C05} err == nil && validName(head.Reference) ==> string(commit.Tree) == string(treeObject.Hash)
 //@   ensures [tip-stored] {C02,C03} err == nil ==> head.Commit != nil && object.commitStored(fs, rootGoitPath, head.Commit.Hash)
 //@   ensures [branch-moved] {C02} err == nil ==> exists k int :: 0 <= k && k < len(refs.Heads) && refs.Heads[k].Name == head.Reference
 
